@@ -13,7 +13,21 @@ def sh(cmd, cwd=None, env=None):
 
 
 def main():
-    targets = sys.argv[1:] or sorted(x[len(V + "/seeded/"):] for x in glob.glob(V + "/seeded/*/*") if os.path.isdir(x))
+    args = sys.argv[1:]
+    jobs = 1
+    if args and args[0] == "--jobs":
+        jobs = int(args[1])
+        args = args[2:]
+    targets = args or sorted(x[len(V + "/seeded/"):] for x in glob.glob(V + "/seeded/*/*") if os.path.isdir(x))
+    if jobs > 1:
+        procs = []
+        for k in range(jobs):
+            part = targets[k::jobs]
+            if part:
+                procs.append(subprocess.Popen([sys.executable, os.path.abspath(__file__)] + part))
+        for p in procs:
+            p.wait()
+        return
     scratch = tempfile.mkdtemp(prefix="verif-seedrun-", dir="/tmp")
     try:
         cache = os.path.join(scratch, "cache")
